@@ -587,7 +587,7 @@ impl Router {
 
         for packet in packets.drain(0..) {
             match packet {
-                Packet::Publish(publish, properties) => {
+                Packet::Publish(mut publish, mut properties) => {
                     let span = tracing::error_span!("publish", topic = ?publish.topic, pkid = publish.pkid);
                     let _guard = span.enter();
 
@@ -620,6 +620,26 @@ impl Router {
                             force_ack = true;
                         }
                         QoS::ExactlyOnce => {
+                            // a topic alias stands for the topic it is mapped to NOW, not when the
+                            // release arrives: resolve (or establish) it before the publish is parked
+                            let topic_alias = properties.as_mut().and_then(|p| p.topic_alias.take());
+                            if let Some(alias) = topic_alias {
+                                let connection = self.connections.get_mut(id).unwrap();
+                                if let Err(e) =
+                                    validate_and_set_topic_alias(&mut publish, connection, alias)
+                                {
+                                    error!(reason = ?e, "Bad topic alias");
+                                    self.router_meters.failed_publishes += 1;
+                                    disconnect = true;
+
+                                    if let RouterError::Disconnect(code) = e {
+                                        disconnect_reason = Some(code)
+                                    }
+
+                                    break;
+                                }
+                            }
+
                             let pubrec = PubRec {
                                 pkid,
                                 reason: PubRecReason::Success,
